@@ -35,7 +35,7 @@ def BOUNDS(tier):
 
 
 RULE = ('every byte string over the alphabet up to max_len x every split into sender parts at LF '
-        'boundaries x every suffix x every recv_buffer/socket division x all segmentations (state '
+        'boundaries (plus one empty part at every position) x every suffix x every recv_buffer/socket division x all segmentations (state '
         'graph of the real DataReader); a case (message, suffix) is non-trivial when the message has a '
         'line-leading dot, a bare CR or LF, no final CRLF, or is empty')
 ASSUMPTIONS = ['the state-graph part runs with max_size=None; the reader with a size limit is explored by all segmentations of the real recv() for messages up to length 4 (server-level behaviour with a limit is C09)',
@@ -146,6 +146,10 @@ def splits(msg, max_parts):
                 last = c
             parts.append(msg[last:])
             yield parts
+            # an empty part is legal anywhere (send_data(header_block, b'', body)): one empty part at every position
+            if len(parts) <= 3:
+                for pos in range(len(parts) + 1):
+                    yield parts[:pos] + [b''] + parts[pos:]
     if msg == b'':
         yield []
         yield [b'', b'']
